@@ -11,6 +11,7 @@ C02 and C10 theorems are about.
     serve [cookie=<scheme>,<host>,<path|->] [mutate=host|path|scheme]
     rate <scheme> <host> <path|-> <num>/<den>        ready <scheme> <host> <path|-> 0|1
     race <pairs> <reqs>          serve-remove <scheme> <host> <path|->
+    remove-serve <scheme> <host> <path|->            serve-serve            upsert … meterfail=1
 -/
 open RB PoolM RR
 
@@ -42,6 +43,7 @@ def outStr : Out → String
   | .ok => "ok"
   | .errNegWeight => "err negweight"
   | .errNotFound => "err notfound"
+  | .errMeter => "err meter"
   | .next _ (some u) => "ok " ++ u.str
   | .next e none => "err " ++ resErr e
   | .forwarded u fresh => "200 " ++ u.str ++ (if fresh then " fresh" else " alias")
@@ -57,12 +59,18 @@ def step (s : Sys) (f : List String) : Sys × String :=
   match f with
   | "upsert" :: sc :: h :: p :: rest =>
     if !(rest.all isKV) then (s, "bad-op") else
+    let failing := Driver.kvNat rest "meterfail" 0 == 1
     match Driver.kv rest "w" with
     | some ws =>
       match parseInt ws with
+      | some (.ofNat w) =>
+        if failing then doOp s (.upsertFailing (mkURL rest sc h p) (some w))
+        else doOp s (.upsert (mkURL rest sc h p) (some (.ofNat w)))
       | some w => doOp s (.upsert (mkURL rest sc h p) (some w))
       | none => (s, "bad-op")
-    | none => doOp s (.upsert (mkURL rest sc h p) none)
+    | none =>
+      if failing then doOp s (.upsertFailing (mkURL rest sc h p) none)
+      else doOp s (.upsert (mkURL rest sc h p) none)
   | ["remove", sc, h, p] => doOp s (.remove (mkURL [] sc h p))
   | ["weight", sc, h, p] =>
     match s.bal.weight (sc, h, pth p) with
@@ -82,6 +90,24 @@ def step (s : Sys) (f : List String) : Sys × String :=
     let r1 := doOp s (.serve none none)
     let r2 := doOp r1.1 (.remove (mkURL [] sc h p))
     (r2.1, r1.2 ++ " ; " ++ r2.2)
+  | ["remove-serve", sc, h, p] =>
+    -- `RemoveServer`, and a request issued while the rebalancer is between the balancer's removal and
+    -- dropping its record: atomic calls, so "removal, then request"; the harness leaves the iterator reset
+    let r1 := doOp s (.remove (mkURL [] sc h p))
+    let r2 := r1.1.step (.serve none none)
+    -- which member the request got is not part of the canonical output (it may select before `reset()`)
+    let o2 := match r2.2 with
+      | .forwarded u fresh =>
+        "200 " ++ (if r2.1.servers.contains u then "member" else "nonmember:" ++ u.str) ++ (if fresh then " fresh" else " alias")
+      | o => outStr o
+    (r2.1.withBal { r2.1.bal with it := It.reset }, r1.2 ++ " ; " ++ o2)
+  | ["serve-serve"] =>
+    -- a second request issued while the first one's adjustment completes its weight push: two requests
+    let wstr := fun (t : Sys) =>
+      (sortStrs (t.weights.map fun e => e.1.str ++ "=" ++ toString e.2)).foldl (fun a u => a ++ " " ++ u) "weights"
+    let r1 := doOp s (.serve none none)
+    let r2 := doOp r1.1 (.serve none none)
+    (r2.1, r1.2 ++ " ; " ++ wstr r1.1 ++ " ; " ++ r2.2 ++ " ; " ++ wstr r2.1)
   | ["race", a, b] =>
     -- administration calls racing with requests: whatever the interleaving of the (atomic) calls, the
     -- harness ends with a sequential add + remove of the reserved server, which determines the state
